@@ -20,7 +20,7 @@ ID = "C13"
 FUNCTIONS = ["pyoak.typing:is_instance", "pyoak.node:_check_runtime_types", "pyoak.node:ASTNode.__post_init__"]
 
 FIELD_ANN: dict[str, Any] = {
-    "i": int, "f": float, "s": str, "b": bool, "oi": Optional[int], "t": Tuple[int, ...], "ft": Tuple[int, str],
+    "i": int, "j": int, "f": float, "s": str, "b": bool, "oi": Optional[int], "t": Tuple[int, ...], "ft": Tuple[int, str],
     "lit": Literal["a", "b"], "u": Union[int, str], "a": Any, "e": Color, "kid": Optional[VLeaf], "kids": Tuple[VLeaf, ...],
 }
 
@@ -79,7 +79,8 @@ def _mentions_false(v) -> bool:
 def _candidates() -> dict[str, list[tuple[str, Any]]]:
     leaf = VLeaf(v=11)
     return {
-        "i": [("1", 1), ("True", True), ("'x'", "x"), ("1.5", 1.5), ("None", None)],
+        "i": [("1", 1), ("True", True), ("'x'", "x"), ("1.5", 1.5), ("None", None), ("1.0", 1.0), ("0", 0)],
+        "j": [("1", 1), ("True", True), ("1.0", 1.0), ("False", False), ("0", 0), ("0.0", 0.0)],
         "f": [("1.5", 1.5), ("2", 2), ("'x'", "x")],
         "s": [("'x'", "x"), ("1", 1), ("None", None)],
         "b": [("True", True), ("False", False), ("1", 1), ("0", 0)],
